@@ -141,6 +141,16 @@ def run(rep, tier, seed, model_ok=True, effort=1):
             rep.violation("parse_version raised %r" % ex, input=dict(s=s), **{"class": "parse-raises"})
             strs.remove(s)
             continue
+        if not isinstance(v, (sv.Version, sv.LegacyVersion)):
+            # every version string is ordered by ONE class family (the vendored one): objects of another library do not compare with it
+            try:
+                mixed_ok = (v < bv.parse_version("not a pep440 version")) in (True, False)
+            except Exception as ex:
+                mixed_ok = False
+            rep.violation("parse_version returns %s.%s, which %s" % (type(v).__module__, type(v).__name__, "cannot be compared with non-PEP 440 versions" if not mixed_ok else "is not the vendored class"),
+                          input=dict(s=s), **{"class": "foreign-class"})
+            strs.remove(s)
+            continue
         objs[s] = v
         is_ver = isinstance(v, sv.Version)
         rep.case(s)
